@@ -1034,7 +1034,9 @@ MANIFEST = {
             "setProblemDefinition_rereads_query also for the pointer already held). "
             "The models are tied to geometric::RRT, control::RRT(intermediate states) and PRM/PRMstar by lock-step runs "
             "(per-iteration oracle answers taken from the real run's trace; milestone counts for PRM). All other planners "
-            "are exploration-backed only: enumerated k x histories "
+            "are exploration-backed only (incl. BIT*/ABIT* with approximate-solution tracking, control RRT with intermediate "
+            "states; worlds: obstacles, sealed goal, two goal states, obstacle-free with an exact goal; a harness watchdog "
+            "turns 'solve() did not return after the condition fired' / 'stopped evaluating the condition' into failing inputs): enumerated k x histories "
             "run against the real code and judged by a spec oracle with ASan/LSan and an allocation-counting state space.",
     "note": "Level: proof for the protocol layer and the modelled RRT core; exploration-backed (no proof) for every other "
             "planner. Trusted: Lean kernel, standard axioms, the hand-written model outside what lock-step explored, the "
